@@ -77,6 +77,34 @@ func (g *Gen) calleeInfo(fr *Frame, c *ssa.CallCommon) (key string, fn *ssa.Func
 			}
 		}
 	}
+	// a function value returned by a call to a module function (e.g. the wait function addLeafToPool hands back):
+	// contract keyed on the producing function and the result position
+	if key == "dynamic" {
+		var call *ssa.Call
+		idx := 0
+		switch x := c.Value.(type) {
+		case *ssa.Extract:
+			if cc, ok := x.Tuple.(*ssa.Call); ok {
+				call, idx = cc, x.Index
+			}
+		case *ssa.Call:
+			call = x
+		}
+		if os.Getenv("GOVC_DEBUG_KEY") != "" {
+			fmt.Fprintf(os.Stderr, "dynamic callee value %T %v call=%v\n", c.Value, c.Value, call != nil)
+		}
+		if call != nil {
+			if f := call.Common().StaticCallee(); f != nil {
+				k := fmt.Sprintf("%s#ret%d", keyOfSSAFunc(f), idx)
+				if os.Getenv("GOVC_DEBUG_KEY") != "" {
+					fmt.Fprintf(os.Stderr, "  returned-func key %q contract=%v\n", k, g.lookupContract(k) != nil)
+				}
+				if g.lookupContract(k) != nil {
+					key = k
+				}
+			}
+		}
+	}
 	// a function value read out of a map/slice held in a struct field: contract keyed on the field
 	if key == "dynamic" {
 		if k := fieldElemOrigin(c.Value, 0); k != "" && g.lookupContract(k) != nil {
@@ -144,7 +172,9 @@ func (g *Gen) call(fr *Frame, st *State, site ssa.Instruction, c *ssa.CallCommon
 		g.pendingCalleeWS = calleeWS
 		res := g.applyContract(fr, st, site, fc, key, ord, penv, resT, args, r)
 		g.callBinds(fr, st, site, c, key, penv, res)
-		if (fc.Assumed && (fn == nil || !g.isRepoPkg(pkgOfFn(fn)))) || (fn != nil && g.otherPackage(fr, fn)) {
+		// function values of the module itself (parameters, returned closures, stored callbacks: keys with '#') may
+		// return the module's own sentinel errors
+		if (fc.Assumed && !strings.Contains(key, "#") && (fn == nil || !g.isRepoPkg(pkgOfFn(fn)))) || (fn != nil && g.otherPackage(fr, fn)) {
 			g.externalErrorFacts(fr, st, res, resT)
 		}
 		return mkRes(res)
@@ -1200,6 +1230,9 @@ func (g *Gen) callBinds(fr *Frame, st *State, site ssa.Instruction, c *ssa.CallC
 			}
 		}
 		v, err := g.eval(cl.Expr, env)
+		if os.Getenv("GOVC_DEBUG_KEY") != "" {
+			fmt.Fprintf(os.Stderr, "  bind %s at %s: err=%v dry=%d\n", cl.Name, key, err, g.dry)
+		}
 		if err != nil {
 			continue
 		}
